@@ -1,5 +1,6 @@
 import EupsModel.Lemmas.CacheInv
 import EupsModel.Lemmas.DbFile
+import EupsModel.Lemmas.OnePlace
 /-! C06 — the database reflects exactly the history of declare / undeclare / tag operations.
 Property theorems only; the model is `Model/Db.lean` (commands) under `Model/Cache.lean` (histories of
 processes: every command reads through the product cache it loads), helper lemmas in `Lemmas/`.
@@ -235,6 +236,46 @@ theorem C06_last_assignment_wins_assignTag (nst : Nat) (dirs : List DirEnt) (h :
     (p := ⟨w.db, m, w.dirs, [], w.extras⟩) hok
   exact ⟨s, h1, h2⟩
 
+/-- **A tag is one designation on the whole path** (`C06_tag_unique_on_path_partial`; hypotheses: no direct
+`Eups.assignTag` in the history — D32 —, no `declare` killed half way, stack arguments on the path; undeclare,
+unassignTag, remove may be killed anywhere, caches deleted anywhere).  After such a history every (tag, product,
+flavor) is assigned in at most one stack: `declare -t` really *moves* the tag, whichever stacks held it. -/
+theorem C06_tag_unique_on_path_partial (nst : Nat) (hn : 0 < nst) (dirs : List DirEnt) (h : List WCmd)
+    (hp : ∀ c ∈ h, Plain nst c) :
+    ∀ r ∈ (runHistory (World.init nst dirs) h).db.tags, ∀ q ∈ (runHistory (World.init nst dirs) h).db.tags,
+      r.tag = q.tag → r.name = q.name → r.flav = q.flav → r = q := by
+  intro r hr q hq h1 h2 h3
+  have hs := (history_onePlace nst hn dirs h hp).1 r hr q hq h1 h2 h3
+  exact (dbInv_history true nst dirs h).ku.tag r hr q hq (TagRec.sameKey_iff.mpr ⟨hs, h1, h2, h3⟩)
+
+/-- **Resolving the tag yields the version it was last assigned to** (path-wide; same hypotheses).  After a plain
+history, when `declare` with tag `t` (not a dry run, not killed, stack argument on the path) succeeds, whatever
+stack `findTaggedProduct` answers from over the whole path, it answers the version just declared. -/
+theorem C06_resolves_to_last_assignment_partial (nst : Nat) (hn : 0 < nst) (dirs : List DirEnt) (h : List WCmd)
+    (hp : ∀ c ∈ h, Plain nst c) (u : User) (a : DeclareArgs) (t : Tag) (htag : a.tag = some t)
+    (hna : a.noaction = false) (hstack : ∀ s, a.stack = some s → s < nst)
+    (hok : (stepG true (runHistory (World.init nst dirs) h) (.run u (.declare a) none)).out = .ok)
+    (d : Decl)
+    (hd : (step (runHistory (World.init nst dirs) h) (.run u (.declare a) none)).db.findTagged (allStacks nst)
+            a.name t a.self = some d) :
+    d.ver = a.ver := by
+  obtain ⟨s, hs, _⟩ := C06_last_assignment_wins nst dirs h u a t htag hna hok
+  have hplain : ∀ c ∈ h ++ [.run u (.declare a) none], Plain nst c := by
+    intro c hc
+    rcases List.mem_append.mp hc with hc | hc
+    · exact hp c hc
+    · simp only [List.mem_singleton] at hc; subst hc; exact ⟨rfl, hstack⟩
+  have huniq := C06_tag_unique_on_path_partial nst hn dirs (h ++ [.run u (.declare a) none]) hplain
+  have hrun : runHistory (World.init nst dirs) (h ++ [.run u (.declare a) none])
+      = step (runHistory (World.init nst dirs) h) (.run u (.declare a) none) := by
+    simp [runHistory, List.foldl_append]
+  rw [hrun] at huniq
+  obtain ⟨r1, hr1, k1⟩ := Spec.tagVer_some hs
+  obtain ⟨r2, hr2, k2⟩ := Spec.tagVer_some (findTagged_tagVer hd)
+  have := huniq r1 hr1 r2 hr2 (k1.2.1.trans k2.2.1.symm) (k1.2.2.1.trans k2.2.2.1.symm)
+    (k1.2.2.2.1.trans k2.2.2.2.1.symm)
+  rw [← k2.2.2.2.2, ← this, k1.2.2.2.2]
+
 /-- **D32 (open).**  Path-wide, "resolving the tag yields the version it was last assigned to" is false for a
 direct `Eups.assignTag`: `declare p 1 -t stable` in stack 0, `declare p 2` in stack 1, `assignTag stable p 2`:
 the tag is now in both stacks and the first stack on the path still answers `1`. -/
@@ -329,5 +370,21 @@ example :
     (F.vfiles.map (fun x => x.recs.map (·.flav)), F.cfiles.map (fun x => x.recs.map (·.flav)),
      F'.vfiles.map (fun x => x.recs.map (·.flav)), F'.cfiles.map (fun x => x.recs.map (·.flav)))
       = ([[L, generic]], [[L, generic]], [[generic]], [[generic]]) := by decide
+
+/-- a plain history in which a tag really moves between stacks: `declare p 1 <dir in stack 0> -t beta`, then
+`declare p 2 <dir in stack 1> -t beta`: afterwards `beta` is in stack 1 only.  Killed right after its
+`Database.declare` (which writes the tag of the new version), the second command leaves `beta` in both stacks:
+the hypothesis "no `declare` killed half way" of `C06_tag_unique_on_path_partial` is needed. -/
+theorem C06_tag_unique_on_path_crash_witness :
+    let p : Name := [112]; let L : Flav := [76]; let beta : Tag := [98]
+    let dirs : List DirEnt := [⟨⟨0, relDir L p [49]⟩, p⟩, ⟨⟨1, relDir L p [50]⟩, p⟩]
+    let c1 : Cmd := .declare ⟨L, p, [49], some ⟨0, relDir L p [49]⟩, none, false, some beta, false, false, []⟩
+    let c2 : Cmd := .declare ⟨L, p, [50], some ⟨1, relDir L p [50]⟩, none, false, some beta, false, false, []⟩
+    let whole := runHistory (World.init 2 dirs) [.run 0 c1 none, .run 0 c2 none]
+    let killed := runHistory (World.init 2 dirs) [.run 0 c1 none, .run 0 c2 (some 1)]
+    (whole.db.tags.filter (fun r => r.tag == beta)).map (·.stack) = [1] ∧
+    ((killed.db.tags.filter (fun r => r.tag == beta)).map (·.stack)).length = 2 ∧
+    Plain 2 (.run 0 c1 none) ∧ Plain 2 (.run 0 c2 none) := by
+  refine ⟨by decide, by decide, ⟨rfl, ?_⟩, ⟨rfl, ?_⟩⟩ <;> intro s hs <;> cases hs
 
 end EupsModel.C06
